@@ -1,0 +1,49 @@
+//! Verification hooks (feature `verif`). Additive only: lets a harness hand the event
+//! loop an in-memory transport instead of a TCP connection, so the genuine
+//! `connect()` / `mqtt_connect()` / `poll()` code runs without a network.
+use std::cell::RefCell;
+use std::collections::VecDeque;
+use std::io;
+
+use tokio::io::{AsyncRead, AsyncWrite};
+
+use crate::framed::AsyncReadWrite;
+
+thread_local! {
+    #[allow(clippy::type_complexity)]
+    static QUEUE: RefCell<Option<VecDeque<Box<dyn AsyncReadWrite>>>> = const { RefCell::new(None) };
+}
+
+/// Switch this thread to verification mode: `network_connect` takes its stream from the
+/// queue filled by [`push_transport`] and never opens a socket.
+pub fn enable() {
+    QUEUE.with(|q| *q.borrow_mut() = Some(VecDeque::new()));
+}
+
+pub fn disable() {
+    QUEUE.with(|q| *q.borrow_mut() = None);
+}
+
+/// Queue a transport for the next connection attempt made on this thread.
+pub fn push_transport<T>(transport: T)
+where
+    T: AsyncRead + AsyncWrite + Send + Unpin + 'static,
+{
+    QUEUE.with(|q| {
+        q.borrow_mut()
+            .get_or_insert_with(VecDeque::new)
+            .push_back(Box::new(transport))
+    });
+}
+
+/// `None` outside verification mode; otherwise the next queued transport, or
+/// `ConnectionRefused` when the harness queued none.
+pub(crate) fn take_transport() -> Option<io::Result<Box<dyn AsyncReadWrite>>> {
+    QUEUE.with(|q| {
+        q.borrow_mut().as_mut().map(|q| {
+            q.pop_front().ok_or_else(|| {
+                io::Error::new(io::ErrorKind::ConnectionRefused, "verif: no transport queued")
+            })
+        })
+    })
+}
